@@ -50,6 +50,11 @@ pub enum Step {
     /// Nothing is sent on the remote's channel: an HTTP GET for the named lane is handed to the
     /// runtime's HTTP task (activity of that task only when the lane does not exist).
     Http(String),
+    /// The remote goes away (both channel ends dropped), as a scripted step.
+    Detach,
+    /// First step of a remote that is not attached when the agent starts: it attaches now, under
+    /// the routing id of remote k (an id that was seen before comes back on a new channel).
+    Attach(usize),
 }
 
 impl Step {
@@ -58,6 +63,7 @@ impl Step {
             Step::Link(l) | Step::Sync(l) | Step::Unlink(l) | Step::Cmd(l, _) => l,
             Step::Wait(_) => "",
             Step::Http(l) => l,
+            Step::Detach | Step::Attach(_) => "",
         }
     }
 }
@@ -319,7 +325,7 @@ fn default_agent(cfg: &Cfg, truth: Arc<TruthLog>) -> swimos_api::agent::BoxAgent
     if cfg.extra == "pair-agent" {
         return crate::agent2::make(truth);
     }
-    let lifecycle = TestLifecycle { log: truth };
+    let lifecycle = TestLifecycle { log: truth, cmdrs: Default::default() };
     Box::new(AgentModel::new(TestAgent::default, lifecycle.into_lifecycle()))
 }
 
@@ -401,11 +407,73 @@ impl AsWorld {
         }
     }
 
+    /// Read what the runtime has written to remote `i` (at most `credit` bytes, 0 = everything).
+    fn recv_remote(&mut self, i: usize, credit: usize) {
+        let step = self.step;
+        let r = &mut self.remotes[i];
+        let mut msgs = vec![];
+        if let Some(rx) = r.rx.as_mut() {
+            match read_now(rx, &r.rx_flag, credit, &mut r.inbuf) {
+                Ok(None) => {}
+                Ok(Some(0)) => {
+                    r.closed_at = Some(step);
+                    r.rx = None;
+                    msgs.push("closed".to_string());
+                }
+                Ok(Some(_)) => {}
+                Err(e) => {
+                    r.closed_at = Some(step);
+                    r.rx = None;
+                    msgs.push(format!("read error {}", e));
+                }
+            }
+            loop {
+                if r.decode_error.is_some() {
+                    break;
+                }
+                if r.inbuf.len() >= 32 {
+                    // a header announcing an absurd length would make the decoder reserve that much
+                    let h = &r.inbuf[16..32];
+                    let node_len = u32::from_be_bytes(h[0..4].try_into().unwrap()) as u64;
+                    let lane_len = u32::from_be_bytes(h[4..8].try_into().unwrap()) as u64;
+                    let body_len = u64::from_be_bytes(h[8..16].try_into().unwrap()) & !(0b111u64 << 61);
+                    if node_len > (1 << 20) || lane_len > (1 << 20) || body_len > (1 << 20) {
+                        r.decode_error = Some(format!("frame header announces node {} lane {} body {} bytes", node_len, lane_len, body_len));
+                        break;
+                    }
+                }
+                match r.decoder.decode(&mut r.inbuf) {
+                    Ok(Some(m)) => {
+                        let lane = m.path.lane.to_string();
+                        let (kind, body) = match m.envelope {
+                            Notification::Linked => (FrameKind::Linked, vec![]),
+                            Notification::Synced => (FrameKind::Synced, vec![]),
+                            Notification::Unlinked(b) => (FrameKind::Unlinked, b.map(|b| b.to_vec()).unwrap_or_default()),
+                            Notification::Event(b) => (FrameKind::Event, b.to_vec()),
+                        };
+                        msgs.push(format!("remote {} <- {:?} {} {:?}", i, kind, lane, String::from_utf8_lossy(&body)));
+                        r.frames.push(Frame { step, lane, kind, body });
+                    }
+                    Ok(None) => break,
+                    Err(e) => {
+                        r.decode_error = Some(format!("{:?}", e));
+                        break;
+                    }
+                }
+            }
+        }
+        for m in msgs {
+            self.log(m);
+        }
+    }
+
     fn next_sender(&self) -> Vec<usize> {
         // remotes with unsent items, the owner of the earliest unsent global item first
         let mut order: Vec<(usize, usize)> = vec![];
         for (i, r) in self.remotes.iter().enumerate() {
-            if r.pos < r.queue.len() && r.tx.is_some() {
+            // a routing id comes back only after its previous holder has gone
+            let attach_ok = matches!(r.queue.get(r.pos), Some(Step::Attach(k)) if self.remotes.get(*k).map(|o| o.dropped_at.is_some()).unwrap_or(false));
+            if r.pos < r.queue.len() && (r.tx.is_some() || attach_ok) {
                 // global index of this remote's next item
                 let mut count = 0;
                 let mut gidx = usize::MAX;
@@ -544,19 +612,22 @@ impl World for AsWorld {
             let (from_agent_tx, from_agent_rx) = byte_channel(NonZeroUsize::new(cfg.cap).unwrap());
             let (comp_tx, comp_rx) = promise::promise();
             let (att_done_tx, att_done_rx) = trigger::trigger();
-            let req = AgentAttachmentRequest::TwoWay {
-                id,
-                io: (from_agent_tx, to_agent_rx),
-                on_attached: Some(att_done_tx),
-                completion: comp_tx,
-            };
-            att_tx.try_send(req).expect("attachment queue full");
+            let late = matches!(queue.first(), Some(Step::Attach(_)));
+            if !late {
+                let req = AgentAttachmentRequest::TwoWay {
+                    id,
+                    io: (from_agent_tx, to_agent_rx),
+                    on_attached: Some(att_done_tx),
+                    completion: comp_tx,
+                };
+                att_tx.try_send(req).expect("attachment queue full");
+            }
             remotes.push(Remote {
                 id,
                 queue,
                 pos: 0,
-                tx: Some(to_agent_tx),
-                rx: Some(from_agent_rx),
+                tx: if late { None } else { Some(to_agent_tx) },
+                rx: if late { None } else { Some(from_agent_rx) },
                 rx_flag: WakeFlag::new(true),
                 inbuf: BytesMut::new(),
                 decoder: RawResponseMessageDecoder,
@@ -566,9 +637,9 @@ impl World for AsWorld {
                 dropped_at: None,
                 decode_error: None,
                 write_failed: None,
-                completion: Some(comp_rx),
+                completion: if late { None } else { Some(comp_rx) },
                 completion_reason: None,
-                attached: Some(att_done_rx),
+                attached: if late { None } else { Some(att_done_rx) },
                 frames_at_quiescence: None,
                 completed_at_quiescence: false,
             });
@@ -838,63 +909,8 @@ impl World for AsWorld {
             }
             c if (EV_RECV..EV_RECV_T).contains(&c) => {
                 let i = (c - EV_RECV) as usize;
-                let step = self.step;
                 let credit = self.cfg.credit;
-                let r = &mut self.remotes[i];
-                let mut msgs = vec![];
-                if let Some(rx) = r.rx.as_mut() {
-                    match read_now(rx, &r.rx_flag, credit, &mut r.inbuf) {
-                        Ok(None) => {}
-                        Ok(Some(0)) => {
-                            r.closed_at = Some(step);
-                            r.rx = None;
-                            msgs.push("closed".to_string());
-                        }
-                        Ok(Some(_)) => {}
-                        Err(e) => {
-                            r.closed_at = Some(step);
-                            r.rx = None;
-                            msgs.push(format!("read error {}", e));
-                        }
-                    }
-                    loop {
-                        if r.decode_error.is_some() {
-                            break;
-                        }
-                        if r.inbuf.len() >= 32 {
-                            // a header announcing an absurd length would make the decoder reserve that much
-                            let h = &r.inbuf[16..32];
-                            let node_len = u32::from_be_bytes(h[0..4].try_into().unwrap()) as u64;
-                            let lane_len = u32::from_be_bytes(h[4..8].try_into().unwrap()) as u64;
-                            let body_len = u64::from_be_bytes(h[8..16].try_into().unwrap()) & !(0b111u64 << 61);
-                            if node_len > (1 << 20) || lane_len > (1 << 20) || body_len > (1 << 20) {
-                                r.decode_error = Some(format!("frame header announces node {} lane {} body {} bytes", node_len, lane_len, body_len));
-                                break;
-                            }
-                        }
-                        match r.decoder.decode(&mut r.inbuf) {
-                            Ok(Some(m)) => {
-                                let lane = m.path.lane.to_string();
-                                let (kind, body) = match m.envelope {
-                                    Notification::Linked => (FrameKind::Linked, vec![]),
-                                    Notification::Synced => (FrameKind::Synced, vec![]),
-                                    Notification::Unlinked(b) => (FrameKind::Unlinked, b.map(|b| b.to_vec()).unwrap_or_default()),
-                                    Notification::Event(b) => (FrameKind::Event, b.to_vec()),
-                                };
-                                msgs.push(format!("remote {} <- {:?} {} {:?}", i, kind, lane, String::from_utf8_lossy(&body)));
-                                r.frames.push(Frame { step, lane, kind, body });
-                            }
-                            Ok(None) => break,
-                            Err(e) => {
-                                r.decode_error = Some(format!("{:?}", e));
-                                break;
-                            }
-                        }
-                    }
-                }
-                for m in msgs {
-                    self.log(m);
-                }
+                self.recv_remote(i, credit);
             }
             c if (EV_RECV_T..EV_SEND).contains(&c) => {
                 let i = (c - EV_RECV_T) as usize;
@@ -958,6 +974,33 @@ impl World for AsWorld {
                     }
                     self.log(format!("clock advances by {}/10 of the inactivity timeout{}", n, if self.subject.runnable() { " (the runtime has work pending)" } else { "" }));
                     tokio::time::advance(INACTIVE_TIMEOUT * n / 10 + Duration::from_millis(1)).await;
+                } else if let Step::Detach = &item {
+                    // everything the runtime has written so far is read before the remote goes
+                    self.recv_remote(i, 0);
+                    let r = &mut self.remotes[i];
+                    r.tx = None;
+                    r.rx = None;
+                    r.dropped_at = Some(step);
+                    r.sent.push((step, item.clone()));
+                    self.script_pos += 1;
+                    self.log(format!("remote {} detaches", i));
+                } else if let Step::Attach(k) = &item {
+                    let id = Uuid::from_u128(1000 + *k as u128);
+                    let (to_agent_tx, to_agent_rx) = byte_channel(NonZeroUsize::new(1 << 16).unwrap());
+                    let (from_agent_tx, from_agent_rx) = byte_channel(NonZeroUsize::new(self.cfg.cap).unwrap());
+                    let (comp_tx, comp_rx) = promise::promise();
+                    let (att_done_tx, att_done_rx) = trigger::trigger();
+                    let req = AgentAttachmentRequest::TwoWay { id, io: (from_agent_tx, to_agent_rx), on_attached: Some(att_done_tx), completion: comp_tx };
+                    let _ = self.att_tx.try_send(req);
+                    r.id = id;
+                    r.tx = Some(to_agent_tx);
+                    r.rx = Some(from_agent_rx);
+                    r.rx_flag.set();
+                    r.completion = Some(comp_rx);
+                    r.attached = Some(att_done_rx);
+                    r.sent.push((step, item.clone()));
+                    self.script_pos += 1;
+                    self.log(format!("remote {} attaches under the id of remote {}", i, k));
                 } else if let Step::Http(lane) = &item {
                     let uri: swimos_api::http::Uri = format!("/node?lane={}", lane).parse().expect("uri");
                     let req = swimos_api::http::HttpRequest::get(uri).map(|_| bytes::Bytes::new());
@@ -974,7 +1017,7 @@ impl World for AsWorld {
                     Step::Sync(_) => RequestMessage::sync(r.id, path),
                     Step::Unlink(_) => RequestMessage::unlink(r.id, path),
                     Step::Cmd(_, body) => RequestMessage::command(r.id, path, body.as_bytes()),
-                    Step::Wait(_) | Step::Http(_) => unreachable!(),
+                    Step::Wait(_) | Step::Http(_) | Step::Detach | Step::Attach(_) => unreachable!(),
                 };
                 let mut buf = BytesMut::new();
                 let mut enc = RawRequestMessageEncoder;
@@ -1049,9 +1092,32 @@ impl World for AsWorld {
             Some(sec) => (sec.truth.entries.lock().clone(), sec.subject.result.take().map(|r| r.map_err(|e| e.to_string()))),
             None => (vec![], None),
         };
+        // A remote that attached under the routing id of an earlier one is the same remote as far as
+        // the agent is concerned: the two incarnations are merged (frames and requests in step order).
+        let mut remotes = std::mem::take(&mut self.remotes);
+        let late: Vec<(usize, usize)> = remotes.iter().enumerate().filter_map(|(j, r)| if let Some(Step::Attach(k)) = r.queue.first() { Some((j, *k)) } else { None }).collect();
+        for (j, k) in late.into_iter().rev() {
+            let rj = remotes.remove(j);
+            if rj.sent.is_empty() || k >= remotes.len() {
+                continue; // never attached
+            }
+            let rk = &mut remotes[k];
+            rk.frames_at_quiescence = Some(rk.frames.len() + rj.frames_at_quiescence.unwrap_or(rj.frames.len()));
+            rk.frames.extend(rj.frames);
+            rk.sent.extend(rj.sent);
+            rk.queue.extend(rj.queue);
+            rk.closed_at = rj.closed_at;
+            rk.dropped_at = rj.dropped_at;
+            if rk.decode_error.is_none() {
+                rk.decode_error = rj.decode_error;
+            }
+            rk.write_failed = rj.write_failed;
+            rk.completion_reason = rj.completion_reason;
+            rk.completed_at_quiescence = rj.completed_at_quiescence;
+        }
         let obs = Observation {
             cfg: self.cfg.clone(),
-            remotes: std::mem::take(&mut self.remotes),
+            remotes,
             targets: std::mem::take(&mut self.targets),
             truth,
             truth_at_quiescence: self.truth_at_quiescence,
